@@ -148,7 +148,10 @@ def render(i, s):
     for j, y in enumerate(ys):
         mac, dd, u = (".CO_YIELD", "d", use[j]) if y == "C" else (".LR_CO_YIELD", "ld", use[j])
         if u == "n":
-            body.append("%s(yv(%s, %d))" % (mac, dd, j))
+            if (i + j) % 3 == 1:   # an lvalue into a temporary of the same full expression: the value must be copied while that lives
+                body.append("%s(std::max(yv(%s, %d), -2000000000))" % (mac, dd, j))
+            else:
+                body.append("%s(yv(%s, %d))" % (mac, dd, j))
         elif u == "p":
             body.append("%s(%s)" % (mac, ae if j == 0 else "%s + %d" % (ae, j)))
         else:
